@@ -101,7 +101,7 @@ def prepare(rng, sb):
     kind = rng.choice(["new-object", "new-version", "new-version", "upgrade"] if spec == "1.1" else ["new-object", "new-version", "new-version"])
     oid = "obj"
     objspec = "1.0" if kind == "upgrade" else None
-    sb.run(["new"] + (["-v", objspec] if objspec else []) + ["-z", str(rng.choice([0, 0, 3])), oid])
+    sb.run(["new"] + (["-v", objspec] if objspec else []) + (["-c", rng.choice(["data", "c-dir"])] if rng.random() < 0.35 else []) + ["-z", str(rng.choice([0, 0, 3])), oid])
 
     def stage(k):
         names = rng.sample(list(files), rng.randint(1, 3))
